@@ -2,6 +2,7 @@
 from __future__ import annotations
 
 import hashlib
+import re
 import json
 import os
 import subprocess
@@ -75,6 +76,10 @@ FAMILY = [
     "{{ ['b', 'a', 'b', 'c', 'a']|unique|list }}{{ [3, 1, 2]|sort }}{{ 'b a c a'|wordcount }}{{ ['x', 'y']|join('-') }}",
     "{{ 'a b'|urlencode }}{{ {'k': 'v w', 'j': 'x'}|urlencode }}{{ 'a,b'|replace(',', ';') }}{{ '<a b>'|striptags }}",
     "{{ [1, 2, 3]|select('odd')|list }}{{ [{'a': 1}, {'a': 2}]|map(attribute='a')|list }}{{ [{'a': 1, 'b': 2}]|groupby('a') }}",
+    # constant expressions whose value is an arbitrary object (its text carries a memory address)
+    "{{ 'a'|attr('upper') }}{{ 'a'.upper }}{{ 'abc'|list|unique }}{{ {'a': 1}|items }}{{ [1, 2]|batch(1) }}{{ [1, 2]|map('string') }}",
+    "{% autoescape true %}{{ 'a'.upper }}{{ [3, 1]|sort|reverse }}{{ 'ab'|reverse }}{% endautoescape %}{{ [1]|select('odd') }}{{ 'a b'|wordwrap }}",
+    "{% set v = 'a'.upper %}{{ v }}{% if 'a'.upper %}x{% endif %}{{ ('a'.upper, 1) }}{{ ['a'.title] }}",
     # special names used together in one block / macro / loop
     "{% extends 'base' %}{% block a %}{{ self.b() }}{{ super() }}{% endblock %}{% block b %}{{ super.super() }}{{ self.a() }}{{ x }}{% endblock %}",
     "{% block a %}{{ self.a }}{{ super() }}{{ loop }}{{ caller }}{{ varargs }}{{ kwargs }}{% endblock %}",
@@ -89,6 +94,9 @@ FAMILY = [
     "{% set a = 1 %}{% set b = 2 %}{% set c = 3 %}{% include 'inc' %}{% from 'm' import f with context %}{% import 'n' as nn with context %}",
     "{% filter upper %}{% set a = 1 %}{% set b = 2 %}{% for c in x %}{% include 'inc' %}{% endfor %}{% endfilter %}",
 ]
+
+
+ADDRESS = re.compile(r" at 0x[0-9a-fA-F]{6,}")
 
 
 def envs():
@@ -148,6 +156,12 @@ def shard(arg):
         p.count("iteration_points", len(pts))
         p.count("compilations", runs)
         p.sig((idx, ename, len(pts), hashlib.sha1(next(iter(sources)).encode()).hexdigest()[:8]))
+        # a memory address in the generated source differs between processes (and between compilations)
+        addr = [ln.strip() for ln in next(iter(sources)).splitlines() if ADDRESS.search(ln)]
+        if addr:
+            p.violation("C30/object-address-in-source/" + _construct(src), {
+                "msg": f"{src!r} [{ename}]: the generated source contains the address of a compile-time object: {addr[:2]}",
+                "script": "import jinja2\nprint(jinja2.Environment().compile(%r, raw=True))\n" % src})
         if len(sources) > 1:
             items = list(sources.items())
             a, b = items[0][0].splitlines(), items[1][0].splitlines()
